@@ -78,6 +78,9 @@ def _mk_item(d: Any) -> dict[str, Any]:
 @st.composite
 def data_strategy(draw: Any) -> dict[str, Any]:
     d = draw
+    if d(st.integers(0, 29)) == 0:
+        # no data at all: every global lookup is undefined, namespaces start out empty
+        return {}
     data: dict[str, Any] = {
         "n": d(any_ints),
         "m": d(small_ints),
